@@ -500,6 +500,65 @@ def blockV1 (e : Env) (batch : Nat) (w : World) : Outcome :=
     | none => .panic
     | some _ => .ok { w1 with offsets := w1.offsets.set lendAppId b.2.toNat }
 
+/-! ## generation 1: the borrow sell-off (`UpdateLockedBorrows`, liquidate_borrow.go:196-351)
+
+Generation 1 does not hand the whole collateral of a borrow over: it computes the dollar amount `selloff` that brings the
+position back to its loan-to-value, moves `trunc(bonus + selloff)` collateral units pool → auction account, `trunc(penalty)`
+units pool → reserve, and reduces the locked vault, the borrow and the lend position by
+`totalDeduction = trunc(deduction + selloff)` units (capped at what the position holds — the TRANSFERS are not capped). -/
+
+structure SellOffIn where
+  amountIn : Int        -- locked vault `AmountIn` (= the borrow's collateral)
+  updatedOut : Int      -- `UpdatedAmountOut` = principal + trunc(interest)
+  pIn : Int             -- active prices and decimals of the collateral / debt asset
+  pOut : Int
+  dIn : Int
+  dOut : Int
+  c : Dec               -- `Ltv` of the collateral asset (× `Ltv` of the transit asset for a cross-pool borrow); NOT the e-mode LTV
+  pen : Dec             -- `LiquidationPenalty` (`ELiquidationPenalty` in e-mode)
+  bon : Dec             -- `LiquidationBonus`
+deriving Repr, DecidableEq, Inhabited
+
+structure SellOffOut where
+  cr : Dec              -- ratio written on the locked vault
+  selloff : Dec         -- `CollateralToBeAuctioned` (a dollar value)
+  toAuction : Int       -- collateral units sent pool → auction account
+  toReserve : Int       -- collateral units sent pool → reserve (penalty)
+  totalDeduction : Int  -- burnt cTokens
+  newAmountIn : Int     -- what stays on the locked vault / the borrow as collateral
+  lendReduction : Int   -- what the lend position and `TotalLend` lose
+deriving Repr, DecidableEq, Inhabited
+
+/-- `none` = an error / panic before anything is written (zero value of the collateral, zero unit price, zero divisor) -/
+def sellOffV1 (i : SellOffIn) : Option SellOffOut :=
+  if i.dIn = 0 ∨ i.dOut = 0 then none else
+  let totalIn := assetValue i.amountIn i.pIn i.dIn
+  let totalOut := assetValue i.updatedOut i.pOut i.dOut
+  if totalIn = 0 then none else
+  let cr := Dec.quo totalOut totalIn
+  let b := Dec.one + (i.pen + i.bon)
+  let factor1 := Dec.mul i.c totalIn
+  let factor2 := Dec.mul b i.c
+  let numerator := totalOut - factor1
+  let denominator := Dec.one - factor2
+  if denominator = 0 then none else
+  let selloff := Dec.quo numerator denominator
+  let aip := assetValue 1 i.pIn i.dIn
+  if aip = 0 then none else
+  let deduction := Dec.quo (Dec.mul selloff (i.pen + i.bon)) aip
+  let bonusToBidder := Dec.quo (Dec.mul selloff i.bon) aip
+  let penaltyToReserve := Dec.quo (Dec.mul selloff i.pen) aip
+  let sellOffAmt := Dec.quo selloff aip
+  let totalDeduction := Dec.truncateInt (deduction + sellOffAmt)
+  -- `sdk.NewCoin` panics on a negative amount (a borrow that is not under water)
+  if Dec.truncateInt (bonusToBidder + sellOffAmt) < 0 ∨ Dec.truncateInt penaltyToReserve < 0 ∨ totalDeduction < 0 then none else
+  some { cr := cr, selloff := selloff
+         toAuction := Dec.truncateInt (bonusToBidder + sellOffAmt)
+         toReserve := Dec.truncateInt penaltyToReserve
+         totalDeduction := totalDeduction
+         newAmountIn := if totalDeduction ≥ i.amountIn then 0 else i.amountIn - totalDeduction
+         lendReduction := if totalDeduction ≥ i.amountIn then i.amountIn else totalDeduction }
+
 /-! ## the abstract sweep used for the liveness theorems
 
 Positions are ids; between two sweeps the list changes by deletions anywhere and appends at the end. -/
